@@ -186,6 +186,8 @@ func main() {
 		code = cmdReplay(pos[0], opts)
 	case "list":
 		code = cmdList(opts)
+	case "e2e":
+		code = cmdE2E(pos, opts)
 	case "dump":
 		code = cmdDump(pos, opts)
 	default:
@@ -193,6 +195,39 @@ func main() {
 	}
 	cleanupScratch()
 	os.Exit(code)
+}
+
+func cmdE2E(pos []string, opts *RunOpts) int {
+	if len(pos) != 1 {
+		usage()
+	}
+	c, err := loadE2ECase(pos[0])
+	if err != nil {
+		fmt.Fprintln(os.Stderr, "govc:", err)
+		return 2
+	}
+	r, err := runE2E(opts, c)
+	if err != nil {
+		fmt.Fprintln(os.Stderr, "govc:", err)
+		return 2
+	}
+	if opts.Verbose {
+		for n, s := range r.Files {
+			fmt.Printf("---- %s ----\n%s\n", n, s)
+		}
+	}
+	fmt.Printf("generator: error=%q panic=%q warnings=%d; compile error: %q (%.1fs)\n", r.GenError, r.GenPanic, len(r.Warnings), trunc(r.CompileError, 500), r.Seconds)
+	for i, v := range r.Verdicts {
+		fmt.Printf("  %-40s expect=%-7s observed=%-7s %s %s\n", c.Docs[i].Doc, c.Docs[i].Expect, v.Verdict, trunc(v.Err, 100), trunc(v.Value, 80))
+	}
+	viol := c.violations(r)
+	for _, v := range viol {
+		fmt.Println("  VIOLATES:", v)
+	}
+	if len(viol) > 0 {
+		return 1
+	}
+	return 0
 }
 
 func cmdList(opts *RunOpts) int {
@@ -374,7 +409,7 @@ func buildReport(id string, w *World, opts *RunOpts, results []*FuncResult, all 
 	// findings bookkeeping
 	knownSeen := []string{}
 	for _, f := range opts.Findings {
-		if f.Kind != "known" || f.Property != id {
+		if f.Kind != "known" || !hasTag(strings.Split(f.Property, ","), id) {
 			continue
 		}
 		canaryOK := false
@@ -403,6 +438,7 @@ func buildReport(id string, w *World, opts *RunOpts, results []*FuncResult, all 
 	for _, kf := range extra.KnownSeen {
 		rep.lines = append(rep.lines, kf)
 	}
+	rep.lines = append(rep.lines, extra.Lines...)
 	knownSeen = append(knownSeen, extra.KnownIDs...)
 	// failures
 	for _, n := range failedNamed {
